@@ -116,6 +116,8 @@ def check(ck):
         rets = FuncView(b).returns()
         ck.ob("build_response always returns a dict (what the pre-flight test recognises)", bool(rets) and all(isinstance(r.value, ast.Dict) for r in rets), b, b.node,
               construct="source:dict-shape")
+        from .c07 import single_root_traversal
+        single_root_traversal(ck, repo)
     with ck.rule("R3"):
         for rel, name, src in ((ENG, "Engine.subscribe", "_subscription_executor"), ("tartiflette/utils/directives.py", "subscription_generator", "generator"),
                                ("tartiflette/utils/directives.py", "directive_generator", "directive_func")):
